@@ -10,6 +10,7 @@ import (
 	"time"
 
 	"github.com/mutagen-io/mutagen/pkg/multiplexing/ring"
+	"github.com/mutagen-io/mutagen/pkg/verif"
 )
 
 var (
@@ -232,6 +233,7 @@ func (s *Stream) Read(buffer []byte) (int, error) {
 		s.receiveBufferReady <- struct{}{}
 	}
 	s.receiveBufferLock.Unlock()
+	verif.Yield("multiplexing.read.increment")
 
 	// Send a window update corresponding to the amount that we read.
 	select {
